@@ -103,7 +103,22 @@ fn gen(ctx: &GenCtx, i: u64, prop: &str) -> Option<Run> {
     let assertion = if proto.has_assertion() && r.chance(1, 4) { Some(nonempty_text!(r, 6)) } else { None };
     let now = gen_now(&mut r).clamp(T_1971 + 2 * DAY, t_9000() - 400 * DAY);
     // the verifier under test and its control
-    let vspec = VerifierSpec { proto, layer: Layer::Batteries, key, footer: footer.clone(), assertion: assertion.clone(), default_validators: true, expect: vec![], expect_via_extend: false, validators: vec![], hash_seed: r.next() };
+    // one run in six: the default parser additionally gets check_claim(exp|nbf = v); a token carrying
+    // exactly v is then still subject to the time rule (v expired / not yet valid => rejected)
+    let pinned: Option<(bool, String, i128)> = if i % 6 == 5 {
+        let is_exp = prop == "C11";
+        let t = if is_exp { now - r.range(2 * NS, 400 * DAY) } else { now + r.range(60 * NS, 400 * DAY) };
+        let t = t - t.rem_euclid(NS);
+        Some((is_exp, render_canonical(&mut r, t), t))
+    } else {
+        None
+    };
+    let expect = match &pinned {
+        Some((true, s, _)) => vec![ClaimSpec::Exp(s.clone())],
+        Some((false, s, _)) => vec![ClaimSpec::Nbf(s.clone())],
+        None => vec![],
+    };
+    let vspec = VerifierSpec { proto, layer: Layer::Batteries, key, footer: footer.clone(), assertion: assertion.clone(), default_validators: true, expect, expect_via_extend: false, validators: vec![], hash_seed: r.next() };
     let control = VerifierSpec { layer: Layer::Generic, default_validators: false, ..vspec.clone() };
     let v = rb.verifier(vspec);
     let n = if slow { 3 } else { 6 + r.usize(20) };
@@ -138,6 +153,15 @@ fn gen(ctx: &GenCtx, i: u64, prop: &str) -> Option<Run> {
         }
         if let Some(x) = nb {
             payload.insert("nbf".into(), x);
+        }
+        if let Some((is_exp, s, _)) = &pinned {
+            if k % 2 == 0 {
+                payload.insert(if *is_exp { "exp" } else { "nbf" }.into(), json!(s));
+            }
+        }
+        if k == 1 && r.chance(1, 2) {
+            // the instant the library's own placeholder claims carry
+            payload.insert("exp".into(), json!("2019-01-01T00:00:00+00:00"));
         }
         let opts = IssueOpts { proto, layer: Layer::Core, key, footer: footer.clone(), assertion: assertion.clone(), now, message: String::new(), json_payload: Some(Value::Object(payload)), extra_claims: vec![] };
         let t = issue(&mut rb, &mut r, opts);
